@@ -256,3 +256,18 @@ pub fn shape_hash(rec: &RunRecord) -> (u64, bool) {
     }
     (h, deliveries_n >= 2 || faults_n >= 1)
 }
+
+/// the part types / the wrapper are asked inside the monitors too; a panic of the generated
+/// deserialiser must not take the monitor down
+pub fn safe_wrapper(e: &rt::spec::Entry, kind: &str, bytes: &[u8]) -> Result<String, String> {
+    let f = e.wrapper_roundtrip;
+    match std::panic::catch_unwind(std::panic::AssertUnwindSafe(|| f(kind, bytes))) {
+        Ok(r) => r,
+        Err(_) => Err("PANIC while decoding".to_string()),
+    }
+}
+
+pub fn safe_parts(e: &rt::spec::Entry, kind: &str, bytes: &[u8]) -> Vec<rt::spec::PartVerdict> {
+    let f = e.parts_accept;
+    std::panic::catch_unwind(std::panic::AssertUnwindSafe(|| f(kind, bytes))).unwrap_or_default()
+}
